@@ -455,6 +455,35 @@ def handleImports (j : Json) : Option Json := do
     | some (m, none) => Json.arr #[Json.str n, Json.str m, Json.null]
     | none => Json.arr #[Json.str n, Json.null, Json.null])).toArray)])
 
+partial def parseE (j : Json) : Option C16.E := do
+  let a ← getArr? j
+  let es (k : Nat) : Option (List C16.E) := do (← getArr? a[k]!).toList.mapM parseE
+  let ctx (x : Json) : Option C16.Ctx := do
+    match (← getStr? x) with | "load" => some .load | "store" => some .store | "del" => some .del | _ => none
+  match (← getStr? a[0]!) with
+  | "const" => some .const | "other" => some .other
+  | "name" => some (.name (← getStr? a[1]!) (← ctx a[2]!))
+  | "coll" => some (.coll (← es 1)) | "nary" => some (.nary (← es 1)) | "slice" => some (.slice (← es 1)) | "fstring" => some (.fstring (← es 1))
+  | "unary" => some (.unary (← parseE a[1]!)) | "starred" => some (.starred (← parseE a[1]!))
+  | "bin" => some (.bin (← parseE a[1]!) (← parseE a[2]!))
+  | "attribute" => some (.attribute (← parseE a[1]!) (← getStr? a[2]!) (← ctx a[3]!))
+  | "subscript" => some (.subscript (← parseE a[1]!) (← parseE a[2]!) (← ctx a[3]!))
+  | "comp" =>
+    let gens ← (← getArr? a[2]!).toList.mapM (fun g => do
+      let p ← getArr? g
+      some ((← parseE p[0]!), (← parseE p[1]!), (← (← getArr? p[2]!).toList.mapM parseE)))
+    some (.comp (← es 1) gens)
+  | "call" => some (.call (← parseE a[1]!) (← es 2) (← es 3))
+  | "ifexp" => some (.ifexp (← parseE a[1]!) (← parseE a[2]!) (← parseE a[3]!))
+  | "named" => some (.named (← parseE a[1]!) (← parseE a[2]!))
+  | "lambda" => some (.lambda (← es 1) (← parseE a[2]!))
+  | _ => none
+
+def handleSideEffect (j : Json) : Option Json := do
+  let e ← (field? j "e") >>= parseE
+  let w ← (field? j "w") >>= strList?
+  some (Json.mkObj [("b", Json.bool (C16.hse w e))])
+
 def dispatch (j : Json) : Json :=
   match (field? j "suite") >>= getStr? with
   | some "sched" => (handleSched j).getD bad
@@ -477,6 +506,7 @@ def dispatch (j : Json) : Json :=
   | some "preserve" => (handlePreserve j).getD bad
   | some "layout" => (handleLayout j).getD bad
   | some "imports" => (handleImports j).getD bad
+  | some "sideeffect" => (handleSideEffect j).getD bad
   | _ => bad
 
 partial def loop (h : IO.FS.Stream) (out : IO.FS.Stream) : IO Unit := do
